@@ -953,6 +953,32 @@ def Ev.prefixOk : Ev → Prop
   | .cmdIn _ pfx _ => C16.noBreak pfx
   | .order _ _ => True
   | .expire => True
+  | .restart _ _ => True
+
+/-! ### stop and start (`Ev.restart`) -/
+
+theorem restartPrep_inv (cfg : Cfg) {st : St} (h : Inv st) : Inv (restartPrep cfg st) :=
+  ⟨h.users, fun c hc => (by cases hc), fun c hc => (by cases hc), fun c hc => (by cases hc)⟩
+
+theorem restartPrep_inv3 (cfg : Cfg) {st : St} (h : Inv3 st) : Inv3 (restartPrep cfg st) :=
+  ⟨restartPrep_inv cfg h.inv, h.ids, fileOk_of_saved rfl h.inv.users h.ids⟩
+
+theorem restartPrep_ownInv {O : Nat → Prop} (cfg : Cfg) {st : St} (h : OwnInv O st) : OwnInv O (restartPrep cfg st) := by
+  refine ⟨restartPrep_inv cfg h.inv, h.mem, ?_⟩
+  intro db hdb
+  have e : (restartPrep cfg st).usaved = some { users := st.users, nextId := st.nextId } := rfl
+  rw [e] at hdb
+  injection hdb with hdb
+  subst hdb
+  exact ⟨h.inv.users, Or.inl (fun id hid => h.mem id hid)⟩
+
+theorem restartSt_eq (cfg : Cfg) (st : St) (uo : List (Nat × List Str)) (co : List (Str × List Str)) :
+    restartSt cfg st uo co = (step cfg ((restartPrep cfg st).fileOrder uo co) [] .reload none).1 := rfl
+
+theorem restartOrd_inv3 (cfg : Cfg) {st : St} (uo : List (Nat × List Str)) (co : List (Str × List Str)) (h : Inv3 st) :
+    Inv3 ((restartPrep cfg st).fileOrder uo co) :=
+  have h0 := restartPrep_inv3 cfg h
+  ⟨fileOrder_inv uo co h0.inv, h0.ids, fileOrder_fileOk uo co h0.file⟩
 
 theorem stepEv_ownInv {O : Nat → Prop} (cfg : Cfg) (hcfg : HashSafe cfg) (st : St) (e : Ev) (he : e.prefixOk)
     (h : OwnInv O st) : OwnInv O (stepEv cfg st e) := by
@@ -966,6 +992,12 @@ theorem stepEv_ownInv {O : Nat → Prop} (cfg : Cfg) (hcfg : HashSafe cfg) (st :
     · exact h
   | order uo co => exact ⟨fileOrder_inv uo co h.inv, h.mem, fileOrder_fileOwn uo co h.file⟩
   | expire => exact ⟨⟨h.inv.users, h.inv.cu, h.inv.cuok, h.inv.fresh⟩, h.mem, h.file⟩
+  | restart uo co =>
+    show OwnInv O (restartSt cfg st uo co)
+    rw [restartSt_eq]
+    have h0 := restartPrep_ownInv (O := O) cfg h
+    exact step_ownInv cfg hcfg _ [] C16.noBreak_nil .reload none
+      ⟨fileOrder_inv uo co h0.inv, h0.mem, fileOrder_fileOwn uo co h0.file⟩
 
 /-- **No history creates an owner — whatever order the capability sets are written in.**
 `history_owner_safe` for histories in which, at any point, the environment may fix the order of
@@ -1000,6 +1032,7 @@ def GoodRunEv (cfg : Cfg) : St → List Ev → Prop
      | none => GoodRunEv cfg st rest)
   | st, .order uo co :: rest => GoodRunEv cfg (st.fileOrder uo co) rest
   | st, .expire :: rest => GoodRunEv cfg { st with auth := [] } rest
+  | st, .restart uo co :: rest => GoodRunEv cfg (restartSt cfg st uo co) rest
 
 /-- **`history_safe_all` with order events**: the three invariants (`Inv3`: stored fields are
 line-safe, ids are distinct and below `nextId`, the saved file holds no capability that memory
@@ -1045,6 +1078,13 @@ theorem history_safe_all_ev (cfg : Cfg) (hcfg : HashSafe cfg) (hist : List Ev) (
         ⟨⟨h.inv.users, h.inv.cu, h.inv.cuok, h.inv.fresh⟩, h.ids, h.file⟩
       obtain ⟨h1, h2⟩ := ih _ h' (fun e he => hp e (by simp [he])) hg
       exact ⟨fun id hid => h1 id hid, h2⟩
+    | restart uo co =>
+      have hq : Quiet cfg ((restartPrep cfg st).fileOrder uo co) [] .reload none := fun hcc => absurd hcc (by decide)
+      obtain ⟨hown, h'⟩ := step_safe_all cfg hcfg ((restartPrep cfg st).fileOrder uo co) [] C16.noBreak_nil .reload none
+        (restartOrd_inv3 cfg uo co h) hq
+      rw [← restartSt_eq] at hown h'
+      obtain ⟨h1, h2⟩ := ih (restartSt cfg st uo co) h' (fun e he => hp e (by simp [he])) hg
+      exact ⟨fun id hid => hown id (h1 id hid), h2⟩
 
 /-! ## the channels file and the channels in memory (`ChanAgree`, C02/Chan.lean) -/
 
@@ -1170,6 +1210,8 @@ def ChanLoadsOkEv (cfg : Cfg) : St → List Ev → Prop
      | none => ChanLoadsOkEv cfg st rest)
   | st, .order uo co :: rest => ChanLoadsOkEv cfg (st.fileOrder uo co) rest
   | st, .expire :: rest => ChanLoadsOkEv cfg { st with auth := [] } rest
+  | st, .restart uo co :: rest =>
+    ChanLoadsOk cfg ((restartPrep cfg st).fileOrder uo co) .reload ∧ ChanLoadsOkEv cfg (restartSt cfg st uo co) rest
 
 /-- **The channels file never differs from the channels in memory** (as answers to
 `getChannel`, capability sets compared as sets): along any history of messages, flushes, reloads
@@ -1203,6 +1245,12 @@ theorem history_chanAgree_ev (cfg : Cfg) (hist : List Ev) (st : St) (h : ChanAgr
       exact ih _ (fileOrder_chanAgree uo co h) hl
     | expire =>
       exact ih _ (fun saved hsv n => h saved hsv n) hl
+    | restart uo co =>
+      have h0 : ChanAgree (restartPrep cfg st) := chanAgree_of_saved rfl
+      have := step_chanAgree_all cfg ((restartPrep cfg st).fileOrder uo co) [] .reload none
+        (fileOrder_chanAgree uo co h0) hl.1
+      rw [← restartSt_eq] at this
+      exact ih _ this hl.2
 
 /-! ## the statement of the property over whole histories -/
 
@@ -1217,6 +1265,7 @@ def GrantedIn (cfg : Cfg) : St → List Ev → Nat → Str → Prop
      | none => GrantedIn cfg st rest id x)
   | st, .order uo co :: rest, id, x => GrantedIn cfg (st.fileOrder uo co) rest id x
   | st, .expire :: rest, id, x => GrantedIn cfg { st with auth := [] } rest id x
+  | st, .restart uo co :: rest, id, x => GrantedIn cfg (restartSt cfg st uo co) rest id x
 
 /-- one command step: capabilities are old or granted by an entitled sender (reloads: old) -/
 theorem step_caps_all (cfg : Cfg) (st : St) (pfx : Str) (c : Cmd) (ch : Option Str) (h : Inv3 st) :
@@ -1293,6 +1342,15 @@ theorem history_caps_entitled (cfg : Cfg) (hcfg : HashSafe cfg) (hist : List Ev)
       intro p hp' x hx
       rcases ih _ h' (fun e he => hp e (by simp [he])) hg p hp' x hx with h1 | h1
       · exact Or.inl h1
+      · exact Or.inr h1
+    | restart uo co =>
+      have h0 := restartOrd_inv3 cfg uo co h
+      have hq : Quiet cfg ((restartPrep cfg st).fileOrder uo co) [] .reload none := fun hcc => absurd hcc (by decide)
+      obtain ⟨_, h'⟩ := step_safe_all cfg hcfg ((restartPrep cfg st).fileOrder uo co) [] C16.noBreak_nil .reload none h0 hq
+      rw [← restartSt_eq] at h'
+      intro p hp' x hx
+      rcases ih (restartSt cfg st uo co) h' (fun e he => hp e (by simp [he])) hg p hp' x hx with ⟨u, hu, hxu⟩ | h1
+      · exact Or.inl (reloadNoFlush_caps_sub cfg ((restartPrep cfg st).fileOrder uo co) h0.inv h0.file (p.1, u) hu x hxu)
       · exact Or.inr h1
 
 /-! ## non-vacuity and the two repaired defects -/
@@ -1420,4 +1478,17 @@ example : ChanLoadsOkEv cfg0 (flushC st0) [.cmd (s "x") .reload, .cmd (s "x") .f
   · show (C16.loadChannels _ _ _).2 = none
     decide
 
+/-- `UserCapabilitySet.add` never lets `-owner` into a set, in whatever spelling it is asked for
+(the request is lower-cased before it is compared: `admin capability add eve -OWNER`) -/
+theorem uadd_keeps_antiOwner_out {caps caps' : List Str} {c : Str} (h : C03.uadd caps c = .ok caps')
+    (hx : C03.antiOwnerS ∈ caps') : C03.antiOwnerS ∈ caps := by
+  rcases mem_uadd h hx with h1 | h1
+  · exact h1
+  · exfalso
+    unfold C03.uadd at h
+    simp only [← h1, beq_self_eq_true, if_true] at h
+    cases h
+
+example : (step cfg0 st0 (s "adm!a@admin.host") (.capAdd (s "eve") (s "-OWNER")) none).2 = false ∧
+          (step cfg0 st0 (s "adm!a@admin.host") (.capAdd (s "eve") (s "-OWNER")) none).1.users = st0.users := by decide
 end C02
